@@ -20,7 +20,9 @@
 //!        hook = msg (key = message id) | start (key = stage) | end (key = 0) | task (key = task tag)
 //!        action = send <dst> <delay> <id>   send / send_in over the gate chain to <dst>
 //!               | sched <delay> <id>        schedule_in on the own module
-//!               | spawn <tag> <sleep> [join]  tokio::spawn: sleep <sleep> ns (>= 1), log, then the
+//!               | spawn <tag> <sleep> [join] [local]
+//!                                           tokio::spawn (`local`: tokio::task::spawn_local; inside the body of
+//!                                           a tokio::spawn task `local` is ignored): sleep <sleep> ns (>= 1), log, then the
 //!                                           actions of (M, task, tag); `join`: registered with try_join
 //!               | shutdown | restart_in <d> | restart_at <t>
 //!               | panic | log <n>
@@ -31,7 +33,11 @@
 //!   obs <M> <kind> <a> <b> <ns>             kind = msg id serial | start stage - | end - - | reset - - |
 //!                                           task tag - | snd id serial | sch id serial | log n - |
 //!                                           dwn <restart time|-> - (a shutdown request) |
-//!                                           pan <0 callback|1 task> <1 if try_join'ed> (just before a panic)
+//!                                           pan <0 callback|1 task> <1 if try_join'ed> (just before a panic) |
+//!                                           harness-only lines (not produced by the model, judged by the
+//!                                           driver's acceptance checker): spw tag sleep (a task is spawned),
+//!                                           pes - - / pee - - (event_start / event_end of the module's
+//!                                           pass-through processing element)
 //!   res ok | res err <panic:M|join:M|other>... | res crash <text>     result of run()
 //!   glob ctx=<free|held>                    try_current() after the run
 //! (`c13 exec` runs the simulation a second time in the same process: `obs2` / `res2` / `glob2`.)
@@ -52,7 +58,7 @@ use std::sync::{Arc, Mutex};
 pub(crate) enum Action {
     Send(String, u64, u16),
     Sched(u64, u16),
-    Spawn(u64, u64, bool),
+    Spawn(u64, u64, bool, bool),
     Shutdown,
     RestartIn(u64),
     RestartAt(u64),
@@ -105,8 +111,10 @@ fn parse_action(t: &[&str], mods: &[String]) -> Option<Action> {
             Some(Action::Send(dst.to_string(), delay.parse().ok()?, id.parse().ok()?))
         }
         ["sched", delay, id] => Some(Action::Sched(delay.parse().ok()?, id.parse().ok()?)),
-        ["spawn", tag, sleep] => Some(Action::Spawn(tag.parse().ok()?, sleep.parse::<u64>().ok()?.max(1), false)),
-        ["spawn", tag, sleep, "join"] => Some(Action::Spawn(tag.parse().ok()?, sleep.parse::<u64>().ok()?.max(1), true)),
+        ["spawn", tag, sleep] => Some(Action::Spawn(tag.parse().ok()?, sleep.parse::<u64>().ok()?.max(1), false, false)),
+        ["spawn", tag, sleep, "join"] => Some(Action::Spawn(tag.parse().ok()?, sleep.parse::<u64>().ok()?.max(1), true, false)),
+        ["spawn", tag, sleep, "local"] => Some(Action::Spawn(tag.parse().ok()?, sleep.parse::<u64>().ok()?.max(1), false, true)),
+        ["spawn", tag, sleep, "join", "local"] => Some(Action::Spawn(tag.parse().ok()?, sleep.parse::<u64>().ok()?.max(1), true, true)),
         ["shutdown"] => Some(Action::Shutdown),
         ["restart_in", d] => Some(Action::RestartIn(d.parse().ok()?)),
         ["restart_at", t] => Some(Action::RestartAt(t.parse().ok()?)),
@@ -222,7 +230,9 @@ fn log(module: &str, kind: &str, a: Option<u64>, b: Option<u64>) {
     LOG.lock().unwrap().push(format!("obs {module} {kind} {} {} {t}", f(a), f(b)));
 }
 
-fn run_actions(spec: &Arc<ModSpec>, hook: &str, key: u64, in_task: bool, joined: bool) {
+/// `in_set`: the code runs inside the module's `LocalSet` (a callback, or a `spawn_local` task), so
+/// `spawn_local` may be used; the body of a `tokio::spawn` task uses `tokio::spawn` throughout
+fn run_actions(spec: &Arc<ModSpec>, hook: &str, key: u64, in_task: bool, joined: bool, in_set: bool) {
     let Some(list) = spec.acts.get(&(hook.to_string(), key)) else { return };
     for a in list {
         match a {
@@ -245,14 +255,17 @@ fn run_actions(spec: &Arc<ModSpec>, hook: &str, key: u64, in_task: bool, joined:
                 log(&spec.tag, "sch", Some(*id as u64), Some(serial as u64));
                 schedule_in(Message::default().id(*id).kind(serial), Duration::from_nanos(*delay));
             }
-            Action::Spawn(tag, sleep, join) => {
+            Action::Spawn(tag, sleep, join, local) => {
                 let spec2 = spec.clone();
                 let (tag, sleep, join) = (*tag, *sleep, *join);
-                let h = tokio::spawn(async move {
+                let local = *local && in_set;
+                log(&spec.tag, "spw", Some(tag), Some(sleep));
+                let body = async move {
                     des::time::sleep(Duration::from_nanos(sleep)).await;
                     log(&spec2.tag, "task", Some(tag), None);
-                    run_actions(&spec2, "task", tag, true, join);
-                });
+                    run_actions(&spec2, "task", tag, true, join, local);
+                };
+                let h = if local { tokio::task::spawn_local(body) } else { tokio::spawn(body) };
                 if join {
                     current().try_join(h);
                 }
@@ -288,7 +301,26 @@ struct Scripted {
     spec: Arc<ModSpec>,
 }
 
+/// a pass-through processing element: makes the event brackets of a module observable
+struct Bracket {
+    module: String,
+}
+
+impl des::net::processing::ProcessingElement for Bracket {
+    fn event_start(&mut self) {
+        log(&self.module, "pes", None, None);
+    }
+    fn event_end(&mut self) {
+        log(&self.module, "pee", None, None);
+    }
+}
+
 impl Module for Scripted {
+    fn stack(&self, stack: des::net::processing::ProcessingStack) -> des::net::processing::ProcessingStack {
+        let mut stack = stack;
+        stack.append(Bracket { module: self.spec.tag.clone() });
+        stack
+    }
     fn reset(&mut self) {
         self.spec.resets.fetch_add(1, Ordering::SeqCst);
         log(&self.spec.tag, "reset", None, None);
@@ -298,17 +330,17 @@ impl Module for Scripted {
     }
     fn at_sim_start(&mut self, stage: usize) {
         log(&self.spec.tag, "start", Some(stage as u64), None);
-        run_actions(&self.spec, "start", stage as u64, false, false);
+        run_actions(&self.spec, "start", stage as u64, false, false, true);
     }
     fn handle_message(&mut self, msg: Message) {
         let h = msg.header();
         log(&self.spec.tag, "msg", Some(h.id as u64), Some(h.kind as u64));
         let id = h.id as u64;
-        run_actions(&self.spec, "msg", id, false, false);
+        run_actions(&self.spec, "msg", id, false, false, true);
     }
     fn at_sim_end(&mut self) -> Result<(), RuntimeError> {
         log(&self.spec.tag, "end", None, None);
-        run_actions(&self.spec, "end", 0, false, false);
+        run_actions(&self.spec, "end", 0, false, false, true);
         Ok(())
     }
 }
@@ -474,6 +506,8 @@ pub(crate) fn gen_with(seed: u64, count: usize, thorough: bool, panics: u64) -> 
         // down, so the start stages (replayed by every restart) cannot cause another restart
         let n = r.range(6, 12);
         let safe = n - r.range(1, 3);
+        // per module: its tasks are all tokio::spawn, all spawn_local, or a mix
+        let locp: Vec<u64> = (0..nmods).map(|_| *r.pick(&[0u64, 5, 5, 10])).collect();
         let emit = |r: &mut Rng, m: usize, lo: u64, may_down: bool, out: &mut String, hook: &str, key: u64| {
             // lo = smallest id / tag this list may produce
             if lo > n {
@@ -499,7 +533,8 @@ pub(crate) fn gen_with(seed: u64, count: usize, thorough: bool, panics: u64) -> 
                     writeln!(out, "act M{m} {hook} {key} sched {} {}", r.pick(&DELAYS), r.range(lo, n)).unwrap();
                 } else if x < 13 && hook != "end" {
                     let join = if r.chance(1, 2) { " join" } else { "" };
-                    writeln!(out, "act M{m} {hook} {key} spawn {} {}{join}", r.range(lo, n), r.pick(&SLEEPS)).unwrap();
+                    let local = if r.below(10) < locp[m] { " local" } else { "" };
+                    writeln!(out, "act M{m} {hook} {key} spawn {} {}{join}{local}", r.range(lo, n), r.pick(&SLEEPS)).unwrap();
                 } else if x < 17 && may_down {
                     match r.below(6) {
                         0 | 1 => writeln!(out, "act M{m} {hook} {key} shutdown").unwrap(),
